@@ -3,7 +3,7 @@ from hypothesis import strategies as st
 
 from vlib import jasm_io
 from vlib.gen_listing import att_view
-from vlib.gen_rules import SHIPPED_MACROS, broad_cases
+from vlib.gen_rules import broad_text, SHIPPED_MACROS, broad_cases
 from vlib.matcheval import run_all_modes, stream_sample
 from vlib.render import render
 from vlib.runner import Eval
@@ -103,7 +103,7 @@ def evaluate(case):
     ev = Eval()
     ev.tags = [f"feat={f}" for f in case["features"]]
     L = case["listing"]
-    text = render(att_view(L), cont=set(case.get("cont", ())))
+    text = broad_text(case)
     macros = [SHIPPED_MACROS] if case["macros"] else None
     cfg = {}
     if case.get("transparent_addr_range"):
@@ -111,6 +111,8 @@ def evaluate(case):
         ev.tags.append("addr-range-observer")
     if case.get("cont") and len(case["cont"]) % 2:
         cfg["style"] = "att"
+    if case.get("sections_cfg"):
+        cfg["sections"] = case["sections_cfg"]
     mn_full, op_full = case.get("flags", [False, False])
     res = run_all_modes(jasm_io.make_doc(case["pattern"], mn_full or None, op_full or None, config=cfg or None), text, macros)
     ev.subcases = 8
